@@ -1,4 +1,6 @@
 import Sympler.ExprUsualLemmas
+import Sympler.ExprDblLemmas
+import Sympler.ExprHistory
 
 /-!
 # C03 — a runtime-compiled expression computes what the expression language defines
@@ -6,28 +8,35 @@ import Sympler.ExprUsualLemmas
 Model: `Sympler/Expr.lean` (parser `parse`, interpreter `denote` = `value()`, emitter `toC` = `toC()`,
 C reader `parseC`/`evalC` = the specification of what gcc makes of the emitted text).
 Lemmas: `Sympler/ExprCLemmas.lean` (the reader reads back what the emitter writes),
-`Sympler/ExprEmitLemmas.lean` (the emitted terms against the interpreter).
+`Sympler/ExprEmitLemmas.lean` (the emitted terms against the interpreter),
+`Sympler/ExprDblLemmas.lean` (no integer-typed term is emitted).
+
+The model describes /repo after the commits ad91e0f (no `int`-typed sub-expressions in the generated C)
+and 461b1b3 (unbalanced / nested empty brackets are ordinary errors, NULL vector / tensor variables in
+an exponent throw a `gError`).  What the code did before is recorded, on explicitly named `…Old`
+definitions (`Sympler/ExprHistory.lean`), by the `C03_old_…_witness` theorems at the end.
 -/
 namespace Sympler.Expr
 
 /-- The value of one compiled component: what `evalC ∘ parseC` makes of the emitted string is the
-interpreter's value — unless the C text performs a truncating `int / int` division (finding
-`C03_int_division_witness`: that case exists). -/
+interpreter's value.  (Pre-fix, this had the alternative "or the C text performs a truncating
+`int / int` division"; since ad91e0f every emitted term is a C `double`, `C03_emit_no_int_division`,
+and the alternative is gone.) -/
 def CompiledAgrees (env : Env) (s : String) (x : Rat) : Prop :=
-  evalC env s = .ok x ∨ evalC env s = .error .intTrunc
+  evalC env s = .ok x
 
 theorem evalC_of_good {env : Env} {e : CE} {x : Rat} (h : G env e x) :
     CompiledAgrees env (String.ofList e.render) x := by
   unfold CompiledAgrees evalC parseC
   rw [String.toList_ofList, parseCL_render e h.1.ok]
-  exact h.2
+  exact h.2.1
 
 /-- **compiled = interpreter.**  For every tree `t` (whose library functions carry the C names of the
 generated table, `Tree.wf`; every tree built by `parse` is such a tree, `parse_wf`), every environment
 (variable values, declared symbols, oracles for the libm functions): if the emitter produces the strings
 `strs` and the interpreter the value `v`, then there are as many strings as components and every
-string, read as C and evaluated, gives the corresponding component of `v` (or is a truncating integer
-division).  Covers all operators and functions, the index expressions of `:`, `°`, `@`, `det`, the
+string, read as C and evaluated, gives the corresponding component of `v` — no side condition about
+integer divisions any more.  Covers all operators and functions, the index expressions of `:`, `°`, `@`, `det`, the
 unrolling of `^` for positive / zero / negative integral constant exponents, and broadcasting. -/
 theorem C03_emit_sound (env : Env) (t : Tree) (hwf : t.wf = true) (strs : List String) (v : Val Rat)
     (hc : toC env t = .ok strs) (hv : denote env t = .ok v) :
@@ -74,9 +83,50 @@ theorem C03_emit_sound_parsed (env : Env) (text : String) (t : Tree)
     strs.length = v.toList.length ∧ ∀ p ∈ strs.zip v.toList, CompiledAgrees env p.1 p.2 :=
   C03_emit_sound env t (parse_wf hp) strs v hc hv
 
+/-- **No integer-typed division is emitted.**  For every tree `t` (`Tree.wf`) and every environment: if
+the emitter produces the strings `strs` — whether or not the interpreter has a value — every string is
+read by the C reader as an expression `cx` that has the C type `double` and in which no division has two
+`int` operands.  (Purely syntactic; `ExprDblLemmas.toCE_dbl`.) -/
+theorem C03_emit_no_int_division (env : Env) (t : Tree) (hwf : t.wf = true) (strs : List String)
+    (hc : toC env t = .ok strs) :
+    ∀ s ∈ strs, ∃ cx, parseC s = .ok cx ∧ cx.isInt = false ∧ cx.noIntDiv = true := by
+  unfold toC at hc
+  obtain ⟨c, hc', hs⟩ := bind_ok hc
+  injection hs with hs
+  subst hs
+  intro s hs
+  obtain ⟨e, he, rfl⟩ := List.mem_map.mp hs
+  have hd := (toCE_dbl env t hwf c hc').toList e he
+  refine ⟨e.abs, ?_, hd.dbl, hd.nid⟩
+  unfold parseC
+  rw [String.toList_ofList]
+  exact parseCL_render e hd.prim.ok
+
+/-- `C03_emit_no_int_division` for what the parser accepts -/
+theorem C03_emit_no_int_division_parsed (env : Env) (text : String) (t : Tree)
+    (hp : parse (env.decls.map (·.name)) text = .ok t) (strs : List String)
+    (hc : toC env t = .ok strs) :
+    ∀ s ∈ strs, ∃ cx, parseC s = .ok cx ∧ cx.isInt = false ∧ cx.noIntDiv = true :=
+  C03_emit_no_int_division env t (parse_wf hp) strs hc
+
+/-- … hence the C value of an emitted string is never one of the outcomes of an integer division
+(`intTrunc`: truncating, `intDiv0`: undefined behaviour), whatever the variable values — provided the
+libm oracles of the environment do not return such an error themselves (`OraclesClean`; the oracles of
+the driver only return `opaque`). -/
+theorem C03_emit_never_int_error (env : Env) (henv : OraclesClean env) (t : Tree) (hwf : t.wf = true)
+    (strs : List String) (hc : toC env t = .ok strs) :
+    ∀ s ∈ strs, evalC env s ≠ .error .intTrunc ∧ evalC env s ≠ .error .intDiv0 := by
+  intro s hs
+  obtain ⟨cx, hcx, _, hn⟩ := C03_emit_no_int_division env t hwf strs hc s hs
+  have h := evalCX_noIntDiv henv cx hn
+  unfold evalC
+  rw [hcx]
+  exact ⟨fun he => h _ he (Or.inl rfl), fun he => h _ he (Or.inr rfl)⟩
+
 /-- **Totality.**  `parse` is a total function (structural recursion on fuel, no `partial`); the fuel
 `length + 1` it supplies is never exhausted: for every text and every symbol table the result is a tree
-or one of the genuine outcomes of the real code (an error, `hang`, `crash`), never `fuel`.
+or one of the `gError`s of the real code, never `fuel` (neither the fuel of `parseCore` nor that of the
+bracket loop `stripLoop`).
 Side condition on the generated table (`factories_names_ne_nil`, by `decide`): no operator or function
 has the empty name. -/
 theorem C03_total (syms : List String) (text : String) :
@@ -305,38 +355,58 @@ example : withTree exSyms "a-b*c" (fun t => do
     strs.mapM (evalC exEnv)) = (withTree exSyms "a-b*c" (denote exEnv)).map Val.toList := by
   decide +kernel
 
-/-! ## Findings: what the real code does, proved on the model for concrete witnesses
-(every one of them was replayed on the real parser by the harness) -/
+/-- non-vacuity of `C03_emit_never_int_error`: the example environment (like the driver's) has clean
+oracles -/
+example : OraclesClean exEnv :=
+  ⟨fun _ _ _ h => by (cases h; rintro (h | h) <;> cases h),
+   fun _ _ _ h => by (cases h; rintro (h | h) <;> cases h),
+   fun _ h => by (cases h; rintro (h | h) <;> cases h)⟩
 
-/-- FINDING (compiled ≠ interpreter): sums of `step(..)` are C `int`s, `int/int` truncates.
-`step(a)/(step(b)+step(c))` with positive `a b c`: the interpreter gives `1/2`, the emitted C text is an
-integer division (`evalC` reports `intTrunc`; gcc's code returns `0`).  This is why `C03_emit_sound`
-carries the `intTrunc` alternative. -/
-theorem C03_int_division_witness :
+/-! ## Witnesses: what the real code does, proved on the model for concrete inputs
+(every one of them was replayed on the real parser by the harness; `FIXED` = a former finding that the
+commits ad91e0f / 461b1b3 removed, stated for the current behaviour) -/
+
+/-- FIXED (ad91e0f; formerly the finding `C03_int_division_witness`): `step(..)` is emitted as
+`(… > 0 ? 1.0 : 0.0)`, a C `double`.  `step(a)/(step(b)+step(c))` with positive `a b c`: interpreter
+and compiled code both give `1/2`. -/
+theorem C03_step_division_witness :
     withTree exSyms "step(a)/(step(b)+step(c))" (denote exEnv) = .ok (.s (1/2)) ∧
     withTree exSyms "step(a)/(step(b)+step(c))" (fun t => do
       let strs ← toC exEnv t
-      strs.mapM (evalC exEnv)) = .error .intTrunc := by
+      strs.mapM (evalC exEnv)) = .ok [1/2] := by
   decide +kernel
 
-/-- FINDING: `int / int` with divisor 0 (`idMat(1)/idMat(2)`: the off-diagonal `(0)/(0)`): the interpreter
-computes `nan`, the compiled code executes an integer division by zero (SIGFPE / `ud2`). -/
-theorem C03_int_div0_witness :
+/-- FIXED (ad91e0f; formerly `C03_int_div0_witness`): the off-diagonal component of `idMat(1)/idMat(2)`
+is `((0.0)/(0.0))`, a `double` division (`nan` at run time, like the interpreter; `div0` in the model on
+both sides) — no integer division by zero. -/
+theorem C03_zero_division_witness :
     withTree exSyms "idMat(1)/idMat(2)" (fun t => do
       let c ← toCE exEnv t
-      evalCX exEnv (c.toList.getD 1 .mpi).abs) = .error .intDiv0 := by
+      evalCX exEnv (c.toList.getD 1 .mpi).abs) = .error .div0 ∧
+    withTree exSyms "idMat(1)/idMat(2)" (denote exEnv) = .error .div0 := by
   decide +kernel
 
-/-- FINDING: the bracket loop of `parseThis` never terminates on `((a`. -/
-theorem C03_hang_witness : parse exSyms "((a" = .error .hang := by decide +kernel
+/-- FIXED (461b1b3; formerly `C03_hang_witness`): unbalanced brackets are the `gError`
+"Unbalanced brackets in expression …".  (This also holds for `(a`, which the pre-fix code passed on to
+`valueFromString`.) -/
+theorem C03_unbalanced_witness :
+    parse exSyms "((a" = .error .unbalanced ∧ parse exSyms "(a" = .error .unbalanced ∧
+    parse exSyms "((a)" = .error .unbalanced ∧ parse exSyms "(a))" = .error .unknownSymbol := by
+  decide +kernel
 
-/-- FINDING: `(())` strips to the empty string, `string(expr, 1, …)` throws `std::out_of_range`
-(not a `gError`: the process aborts). -/
-theorem C03_crash_witness : parse exSyms "(())" = .error .crash := by decide +kernel
+/-- FIXED (461b1b3; formerly `C03_crash_witness`): nested empty brackets are "Empty bracket!" -/
+theorem C03_nested_empty_bracket_witness :
+    parse exSyms "(())" = .error .emptyBracket ∧ parse exSyms "((()))" = .error .emptyBracket ∧
+    parse exSyms "(()a)" = .error .emptyBracket := by decide +kernel
 
-/-- FINDING: `FNPower::toC` evaluates the exponent with the NULL value pointers of production; a vector
-or tensor variable in the exponent is dereferenced: segmentation fault. -/
-theorem C03_pow_crash_witness : withTree exSyms "a^([u]:[w])" (toC exEnv) = .error .crash := by
+/-- FIXED (461b1b3; formerly `C03_pow_crash_witness`): `FNPower::toC` evaluates the exponent with the
+NULL value pointers of production; a vector or tensor variable there now throws a `gError` like a scalar
+variable, which `FNPower::toC` catches: the text is `(pow(a, b))`. -/
+theorem C03_pow_vector_exponent_witness :
+    (withTree exSyms "a^([u]:[w])" (toCE exEnv)).map (fun c =>
+      match c with
+      | .s (.par (.pow _ _)) => true
+      | _ => false) = .ok true := by
   decide +kernel
 
 /-- FINDING (silently another meaning): with the declared scalars `a` and `absa`, the text `absa` is read
@@ -395,5 +465,46 @@ theorem C03_usual_reading_rejected_witness :
     withTree exSyms "[u]*a/[w]" (denote exEnv) = .error .type ∧
     denote exEnv (.bin .div (.bin .mul (.sym "[u]") (.sym "a")) (.sym "[w]")) =
       .ok (.v ⟨4/7, 5/8, 2/3⟩) := by decide +kernel
+
+/-! ## PRE-FIX HISTORY: what the code did before ad91e0f / 461b1b3
+
+Statements about the explicitly named `…Old` definitions of `Sympler/ExprHistory.lean`, NOT about the
+current model.  They record the former findings (each had been replayed on the real code by the
+harness). -/
+
+open Old in
+/-- HISTORY (before ad91e0f): `step(a)/(step(b)+step(c))` was emitted as
+`((…) > 0 ? 1 : 0)/(((…) > 0 ? 1 : 0)+((…) > 0 ? 1 : 0))`: all operands C `int`s, the division an integer
+division that truncates `1/2` to `0`. -/
+theorem C03_old_int_division_witness :
+    evalCX exEnv (CE.par (.bin '/' false (stepCOld (loadC 0 0))
+      (.par (.bin '+' false (stepCOld (loadC 1 0)) (stepCOld (loadC 2 0)))))).abs = .error .intTrunc ∧
+    (CE.par (.bin '/' false (stepCOld (loadC 0 0))
+      (.par (.bin '+' false (stepCOld (loadC 1 0)) (stepCOld (loadC 2 0)))))).abs.noIntDiv = false := by
+  decide +kernel
+
+open Old in
+/-- HISTORY (before ad91e0f): the off-diagonal components of `idMat(1)/idMat(2)` were `((0)/(0))`, an
+integer division by zero (SIGFPE / `ud2`); likewise `x^0` was `(1)`. -/
+theorem C03_old_int_div0_witness :
+    evalCX exEnv (CE.par (.bin '/' false zeroCOld zeroCOld)).abs = .error .intDiv0 ∧
+    oneCOld.abs.isInt = true := by
+  decide +kernel
+
+open Old in
+/-- HISTORY (before 461b1b3): the bracket loop never terminated on `((a`, threw `std::out_of_range` on
+`(())`, and left `(a` to `valueFromString`. -/
+theorem C03_old_bracket_witness :
+    stripBracketsOld "((a".toList = .hang ∧ stripBracketsOld "(())".toList = .crash ∧
+    stripBracketsOld "(a".toList = .ok "(a".toList := by
+  decide +kernel
+
+open Old in
+/-- HISTORY (before 461b1b3): `value()` of a vector / tensor variable with a NULL pointer was a
+segmentation fault (reached from `FNPower::toC` through `a^([u]:[w])`). -/
+theorem C03_old_null_witness :
+    lookupNullOld .scalar = .gError ∧ lookupNullOld .vector = .segfault ∧
+    lookupNullOld .tensor = .segfault := by
+  decide
 
 end Sympler.Expr
